@@ -678,7 +678,9 @@ class SoftwareSwitchBase (object):
       # Do we disable send-to-controller when performing this?
       # (Currently, there's the possibility that a table miss from this
       # will result in a send-to-controller which may send back to table...)
-      self.rx_packet(packet, in_port)
+      # (Use a copy: the table's actions must not alter the packet that
+      # the rest of this action list goes on to process.)
+      self.rx_packet(ethernet(packet.pack()), in_port)
     else:
       self.log.warn("Unsupported virtual output port: %d", out_port)
 
